@@ -1,6 +1,6 @@
 (* Comparison helpers for the generated correspondence cases of C03 / C16 (no proofs). *)
 From Coq Require Import String Ascii List Bool Arith.
-From LV Require Import Base.Prelude Forest.Sppf Forest.Prio Shape.Chain Shape.Spec Shape.Transform Shape.Ebnf Shape.EarleyLeg Shape.Cnf.
+From LV Require Import Base.Prelude Forest.Sppf Forest.Prio Shape.Chain Shape.Spec Shape.Transform Shape.Ebnf Shape.EarleyLeg Shape.Cnf Shape.CykParse.
 Import ListNotations.
 
 Fixpoint stree_eqb (a b : stree) : bool :=
@@ -177,12 +177,42 @@ Definition cyk_diag (c : cyk_case) : nat :=
   else 0.
 Definition cyk_check (c : cyk_case) : bool := Nat.eqb (cyk_diag c) 0.
 
+(* cyk._parse: CNF grammar, tokens, and for every span (start i, length l) the set table[(i, i+l-1)] and the
+   dict trees[(i, i+l-1)] lark built *)
+Fixpoint cderb (g : list crule) (t : ctree) (s : csym) : bool :=
+  match t, s with
+  | CLeaf ty _, CT t' => String.eqb ty t'
+  | CNode r ch, CN a =>
+      cnt_eqb (c_lhs r) a && existsb (crule_eqb r) g &&
+      (fix go (x : list ctree) (y : list csym) : bool :=
+         match x, y with [], [] => true | c :: x', sy :: y' => cderb g c sy && go x' y' | _, _ => false end) ch (c_rhs r)
+  | _, _ => false
+  end.
+
+Definition ctoken_eqb (a b : ctoken) : bool := String.eqb (fst a) (fst b) && String.eqb (snd a) (snd b).
+
+Definition parse_case := (list crule * list ctoken * list (nat * nat * list crule * tcell))%type.
+
+Definition parse_check (c : parse_case) : bool :=
+  let '(g, w, cells) := c in
+  forallb (fun x : nat * nat * list crule * tcell =>
+             let '(i, l, rs, ts) := x in
+             let m := cyk_cell g w l i in
+             cset_incl (fst m) rs && cset_incl rs (fst m)
+             (* the same non-terminals have a tree; lark's tree is a CNF derivation of the span *)
+             && forallb (fun at_ : cnt * ctree => match tlookup (fst at_) (snd m) with Some _ => true | None => false end) ts
+             && forallb (fun at_ : cnt * ctree => match tlookup (fst at_) ts with Some _ => true | None => false end) (snd m)
+             && forallb (fun at_ : cnt * ctree =>
+                           cderb g (snd at_) (CN (fst at_))
+                           && list_eqb ctoken_eqb (cyield (snd at_)) (firstn l (skipn i w))) ts)
+          cells.
+
 Inductive c03_case := CaseCB (c : cb_case) | CaseE2E (c : e2e_case) | CaseFRS (c : frs_case)
-                    | CaseEARLEY (c : earley_case) | CaseCNFG (c : cnfg_case) | CaseCNFGL (c : cnfg_case) | CaseCYK (c : cyk_case).
+                    | CaseEARLEY (c : earley_case) | CaseCNFG (c : cnfg_case) | CaseCNFGL (c : cnfg_case) | CaseCYK (c : cyk_case) | CasePARSE (c : parse_case).
 Definition c03_check (c : c03_case) : bool :=
   match c with CaseCB x => cb_check x | CaseE2E x => e2e_check x | CaseFRS x => frs_check x
              | CaseEARLEY x => earley_check x | CaseCNFG x => cnfg_check x | CaseCNFGL x => cnfg_check_lenient x
-             | CaseCYK x => cyk_check x end.
+             | CaseCYK x => cyk_check x | CasePARSE x => parse_check x end.
 
 (* C16 ------------------------------------------------------------------------------------ *)
 (* the symbolic transformer: callbacks on the listed rule names / terminal types build tagged nodes *)
